@@ -114,9 +114,13 @@ package segmentpb
 //@   ensures [trim-all] d < 0 && len(segments) > 0 && isActive(segments, len(segments), 0 - d) ==> len(out) == 0
 //@   ensures [trim-infinite] forall i int :: d < 0 && i < len(segments) && isActive(segments, i, 0 - d) && segments[i].Length == nil ==>
 //@   |   len(out) == len(segments) - i && (forall j int :: 0 <= j && j < len(out) ==> out[j] == segments[i+j])
+//@   // (the cut case, one clause per fact: as a single clause the solver's run time was bimodal)
 //@   ensures [trim-cut] forall i int :: d < 0 && i < len(segments) && isActive(segments, i, 0 - d) && segments[i].Length != nil ==>
-//@   |   len(out) == len(segments) - i && fresh(out) && out[0] != nil && out[0].Magnitude == segments[i].Magnitude && out[0].Length != nil &&
-//@   |   durNS(out[0].Length) == cum(segments, i+1) + d && (forall j int :: 1 <= j && j < len(out) ==> out[j] == segments[i+j])
+//@   |   len(out) == len(segments) - i && fresh(out) && out[0] != nil && out[0].Magnitude == segments[i].Magnitude && out[0].Length != nil
+//@   ensures [trim-cut-length] forall i int :: d < 0 && i < len(segments) && isActive(segments, i, 0 - d) && segments[i].Length != nil ==>
+//@   |   len(out) == len(segments) - i && out[0] != nil && out[0].Length != nil && durNS(out[0].Length) == cum(segments, i+1) + d
+//@   ensures [trim-cut-rest] forall i int :: d < 0 && i < len(segments) && isActive(segments, i, 0 - d) && segments[i].Length != nil ==>
+//@   |   len(out) == len(segments) - i && (forall j int :: 1 <= j && j < len(out) ==> out[j] == segments[i+j])
 //@   modifies nothing
 //@   loop 0 (k):
 //@     invariant 0 <= k && k <= len(segments) && d < 0
